@@ -71,7 +71,7 @@ func checkC03(c *Ctx) {
 	r.Rule("C03.f", "the type-parameter list of every declaration value is the declared list (a parameter, an existing .Tparams, or the identifiers the parser read between < and >): explicit type arguments bind by position", 8)
 	checkTparamsProvenance(c, "C03.f", f)
 	r.Import("C01.m", "C03.g", "a declaration is emitted under the name written in the source: the name stored in every Var / pattern node is the identifier the lexer read at a position reached by consuming specific tokens (the C01.m rule) — a let called `rec`, `mutable`, … is still that let", 6, func() { checkBinderNames(c, f) })
-	checkRelevantReviewedForms(c, f, "C03.z", "the output buffer (functions that write emitted Go text)", primSet("buf.Write", "buf.New", "buf.String"), 25)
+	checkRelevantReviewedForms(c, f, "C03.z", "the output buffer (functions that write emitted Go text)", primSet("buf.Write", "buf.New", "buf.String"), 18)
 	// "mapped field types", payload and parameter types: the type parser and printer of C15
 	r.Import("C15.", "C03.d", "", 20, func() { checkC15(c) })
 	checkFOI(c, "FOI")
